@@ -102,6 +102,30 @@ def run(chk, replay=None):
             records.append({"kind": "rot", "id": f"{label}|{al}|rot{k}", "outer": outer, "ntop": ntop, "aligned": int(al != "none"), "alignment": al, "reldiff_q": q, "nan": nan})
             chk.count(1)
         chk.nontrivial((label, al))
+    # DPD alignment as a formula: the aligned intensity against the decomposition assembled independently (observe._dpd_job)
+    variant = {}
+    for r in records:
+        lab, al, _ = r["id"].split("|")
+        variant[(lab, al)] = variant.get((lab, al), 0) or int(r["reldiff_q"] > 100 or r["nan"])
+    djobs, dmeta = [], []
+    for (spec, al, reaction), res in zip(meta, results):
+        if spec[0] == "real" and al.startswith("dpd") and res["ok"] == 1 and observe.n_topologies(reaction) > 1:
+            ev = observe.events_for(reaction, 12, nrng)
+            djobs.append((spec, int(al[3]), ev, chk.seed))
+            dmeta.append((spec, al, reaction))
+    dres = observe.run_jobs(djobs, workers=8, job_timeout=900 if tier == "thorough" else 110, fn=observe._dpd_job) if djobs else []
+    for (spec, al, reaction), res in zip(dmeta, dres):
+        label = f"{spec[1]}:{spec[2]}"
+        if res["ok"] == -1:
+            raise Machinery(f"DPD formula worker failed for {label}:{al}: {res['error']}")
+        if res["ok"] != 1:
+            skipped.append(f"{label}:{al}:dpd-formula:{res['error'][:60]}")
+            continue
+        q, nan = observe.reldiff_q(res["I"], res["I_formula"])
+        outer = observe.outer_states(reaction)
+        records.append({"kind": "dpdformula", "id": f"{label}|{al}|formula", "ntop": observe.n_topologies(reaction), "spinful": int(any(o["spin2"] > 0 for o in outer[1:])),
+                        "variant": variant.get((label, al), 0), "alignment": al, "reldiff_q": q, "nan": nan, "outer": outer})
+        chk.count(1)
     if not records:
         raise Machinery("no model could be evaluated")
     tv = trace.validate("Trace_Observe", records, timeout=900)
@@ -114,6 +138,11 @@ def run(chk, replay=None):
     for clause, rid, info in tv.rejects:
         r = byid[rid]
         label, al, _ = rid.split("|")
+        if r["kind"] == "dpdformula":
+            chk.violation(f"dpd-aligned-amplitude-differs-from-the-decomposition-formula:{label}:alignment={al}",
+                          f"{label} under {al}: the aligned intensity differs by {r['reldiff_q'] * 1e-9:.3g} (relative) from sum_k sum_l' A^k[l'] d(zeta^0_k(ref)) prod_i d(zeta^i_k(ref)) "
+                          "assembled from the model's own topology amplitudes (and the intensity of this pair is not rotation invariant)", {"record": r})
+            continue
         spinless = all(o["spin2"] == 0 for o in r["outer"][1:])
         sig = f"rotation-variant:{label}:{'multi' if r['ntop'] > 1 else 'single'}-topology:alignment={al[:3]}"
         chk.violation(sig, f"{label} under alignment {al}: intensity changes by {r['reldiff_q'] * 1e-9:.3g} (relative) under a global rotation ({r['ntop']} topologies)", {"record": r})
